@@ -121,7 +121,14 @@ class Prop(PropBase):
                      "array": lambda: np.array(z), "array_copy": lambda: np.array(z, copy=True),
                      "array_dtype": lambda: np.array(z, dtype=np.complex64), "asanyarray": lambda: np.asanyarray(z)}[how]()
                 want = {"asarray_dtype": "complex128", "array_dtype": "complex64"}.get(how, str(raw.dtype))
-                return {"conv": {"is_array": isinstance(y, np.ndarray), "dtype": str(y.dtype), "want": want,
+                # history: convert, change the signal in place, convert again -- the second conversion shows the new values
+                z2 = self._mk(case["cls"], case["dtype"], 0, case["dask"])
+                first = np.array(np.asarray(z2), copy=True)
+                z2 += 1
+                np.multiply(z2, 2, out=z2)
+                second = np.asarray(z2)
+                hist_ok = bool(np.array_equal(second, (first + 1) * 2) and np.array_equal(np.asarray(z2.data), second))
+                return {"conv": {"hist_ok": hist_ok, "is_array": isinstance(y, np.ndarray), "dtype": str(y.dtype), "want": want,
                                  "values": bool(np.array_equal(y, raw.astype(want))),
                                  "copied": bool(not np.shares_memory(y, raw)) if not case["dask"] else True}}
             except Exception as e:
@@ -371,6 +378,8 @@ class Prop(PropBase):
             c = code["conv"]
             if not (c["is_array"] and c["dtype"] == c["want"] and c["values"]):
                 return f"array conversion returned {c}"
+            if c.get("hist_ok") is False:
+                return "np.asarray(z) after an in-place operation on z does not show the new values (stale conversion)"
             if case["how"] == "array_copy" and not c["copied"]:
                 return "np.array(z, copy=True) shares memory with the signal"
             return None
